@@ -9,6 +9,10 @@
      4  a quota whose limit was never lowered (and whose usage only ever came through admission)
         shows used above max in a declared dimension
      5  the runtime limit reported for a well-formed quota is above its max
+     3  (decided separately by [check_np], after all the others passed) a non-preemptible pod was
+        admitted although non-preemptible usage + request passes min in a dimension the quota
+        declares, a dimension MISSING from min counting as min = 0 (the code skips such dimensions:
+        known finding, see findings/C03-np-min-absent.md)
      7..9  malformed observation (status, limits, dump do not fit the history)
    The usage figures and (when runtime quota is on) the limits are read from the OBSERVATION, the
    requests, masks, max and min from the history; nothing the model computed about usage is used. *)
@@ -22,8 +26,8 @@ Definition self_within (q : quota) (lim mreq : vec) : Prop :=
   forall d, mget (q_decl q) d = true -> vget (q_used q) d + vget mreq d <= vget lim d.
 Definition np_within (q : quota) (mreq : vec) : Prop :=
   forall d, mget (q_mindecl q) d = true -> vget (q_npused q) d + vget mreq d <= vget (q_min q) d.
-Definition anc_within (a : quota) (lim mreq : vec) : Prop :=
-  forall d, mget (q_decl a) d = true -> 0 < vget mreq d ->
+Definition anc_within (a : quota) (lim : vec) (rk : mask) (mreq : vec) : Prop :=
+  forall d, mget (q_decl a) d = true -> mget rk d = true ->
             vget (q_used a) d + vget mreq d <= vget lim d.
 
 (* [lim] gives the limit in force for each quota of the path *)
@@ -31,13 +35,13 @@ Definition admissible (chk : bool) (p : pod) (q : quota) (anc : list quota) (lim
   let mreq := vmask (q_decl q) (p_req p) in
   self_within q (lim q) mreq
   /\ (p_np p = true -> np_within q mreq)
-  /\ (chk = true -> Forall (fun a => anc_within a (lim a) mreq) anc).
+  /\ (chk = true -> Forall (fun a => anc_within a (lim a) (req_keys q p) mreq) anc).
 
 Definition admissibleb (chk : bool) (p : pod) (q : quota) (anc : list quota) (lim : quota -> vec) : bool :=
   let mreq := vmask (q_decl q) (p_req p) in
   self_ok q (lim q) mreq
   && (negb (p_np p) || np_ok q mreq)
-  && (negb chk || forallb (fun a => anc_ok a (lim a) mreq) anc).
+  && (negb chk || forallb (fun a => anc_ok a (lim a) (req_keys q p) mreq) anc).
 
 (* ---------- the history invariant ---------- *)
 Definition used_le_max (q : quota) (u : vec) : Prop :=
@@ -55,9 +59,24 @@ Definition quota_okb (q : quota) : bool :=
 
 Definition vec_nonnegb (v : vec) : bool := all_dims (fun d => 0 <=? vget v d).
 
-(* well-formed operation in a state: quota objects pass the webhook's self check, requests are
-   non-negative.  Nothing is assumed about ORDER or about which ids exist. *)
-Definition op_okb (st : state) (o : op) : bool :=
+Fixpoint eq_ids (a b : list Z) : bool :=
+  match a, b with
+  | [], [] => true
+  | x :: a', y :: b' => (x =? y) && eq_ids a' b'
+  | _, _ => false
+  end.
+Definition vec_eqb (a b : vec) : bool := all_dims (fun d => vget a d =? vget b d).
+
+(* a pod object: non-negative requests, nothing requested under a key it does not carry *)
+Definition pod_okb (req : vec) (keys : mask) : bool :=
+  vec_nonnegb req && all_dims (fun d => mget keys d || (vget req d =? 0)).
+
+(* well-formed operation in a state: quota objects pass the webhook's self check, pod requests are
+   non-negative, and a bare Reserve belongs to the scheduling cycle whose PreFilter admitted the pod
+   ([sn], the ghost of Model.track: no other PreFilter/Reserve in between, same quota path and
+   same masked request as at check time).  Nothing else is assumed about ORDER or about which ids
+   exist: informer events may come between a cycle's PreFilter and its Reserve. *)
+Definition op_okb (st : state) (sn : snap) (o : op) : bool :=
   match o with
   | OQuotaAdd id parent lend decl mx mindecl mn w =>
       quota_okb (mkQuota id parent lend decl mx mindecl mn w vzero vzero vzero false)
@@ -66,13 +85,24 @@ Definition op_okb (st : state) (o : op) : bool :=
       | Some q => quota_okb (set_spec q mx mindecl mn w)
       | None => true
       end
-  | OPodAdd _ _ _ req | OPodAddBound _ _ _ req => vec_nonnegb req
+  | OPodAdd _ _ _ req keys | OPodAddBound _ _ _ req keys => pod_okb req keys
+  | OReserve id =>
+      match find_pod id (pods st) with
+      | Some p =>
+          p_assigned p
+          || match sn with
+             | Some (i, (ids, m)) =>
+                 (i =? id) && eq_ids ids (map q_id (path st (p_quota p))) && vec_eqb m (pod_delta st p)
+             | None => false
+             end
+      | None => true
+      end
   | _ => true
   end.
-Fixpoint wf_hist (cfg : config) (st : state) (ops : list op) : bool :=
+Fixpoint wf_hist (cfg : config) (st : state) (sn : snap) (ops : list op) : bool :=
   match ops with
   | [] => true
-  | o :: t => op_okb st o && wf_hist cfg (fst (step cfg st o)) t
+  | o :: t => op_okb st sn o && wf_hist cfg (fst (step cfg st o)) (track cfg st sn o) t
   end.
 
 (* ---------- reading an observation ---------- *)
@@ -96,13 +126,6 @@ Definition lim_of_obs (cfg : config) (ls : list (Z * vec)) (q : quota) : vec :=
   if rt_on cfg
   then match assocZ (q_id q) ls with Some v => v | None => none_vec end
   else q_max q.
-
-Fixpoint eq_ids (a b : list Z) : bool :=
-  match a, b with
-  | [], [] => true
-  | x :: a', y :: b' => (x =? y) && eq_ids a' b'
-  | _, _ => false
-  end.
 
 (* ---------- one step of the decision procedure ---------- *)
 (* [st]: the history so far replayed on the model, usage figures synchronised with the
@@ -136,25 +159,28 @@ Definition check_dump (wf : bool) (st' : state) (ob : obs) : Z :=
   else 0.
 
 Definition check_op (cfg : config) (wf : bool) (st : state) (o : op) (ob : obs) : Z :=
-  let c := match o with OAttempt id => check_attempt cfg st id ob | _ => 0 end in
+  let c := match o with
+           | OAttempt id | OCheck id => check_attempt cfg st id ob
+           | _ => 0
+           end in
   if negb (c =? 0) then c else check_dump wf (fst (step cfg st o)) ob.
 
-Fixpoint check (cfg : config) (wf : bool) (st : state) (prev : list (Z * (vec * vec)))
+Fixpoint check (cfg : config) (wf : bool) (st : state) (sn : snap) (prev : list (Z * (vec * vec)))
          (ops : list op) (os : list obs) : Z :=
   match ops, os with
   | [], [] => 0
   | o :: ops', ob :: os' =>
     let st1 := sync_state st prev in
-    let wf' := wf && op_okb st1 o in
+    let wf' := wf && op_okb st1 sn o in
     let c := check_op cfg wf' st1 o ob in
     if negb (c =? 0) then c
-    else check cfg wf' (fst (step cfg st1 o)) (o_dump ob) ops' os'
+    else check cfg wf' (fst (step cfg st1 o)) (track cfg st1 sn o) (o_dump ob) ops' os'
   | _, _ => 9
   end.
 
 (* the property decided on an observation of a whole history *)
 Definition prop_code (cfg : config) (ops : list op) (os : list obs) : Z :=
-  check cfg true init_state [] ops os.
+  check cfg true init_state None [] ops os.
 
 (* ---------- the same, as a Prop over one observed step ---------- *)
 Definition attempt_holds (cfg : config) (st : state) (id : Z) (ob : obs) : Prop :=
@@ -166,5 +192,67 @@ Definition attempt_holds (cfg : config) (st : state) (id : Z) (ob : obs) : Prop 
 Definition dump_holds (st' : state) (ob : obs) : Prop :=
   forall q, In q (sync (quotas st') (o_dump ob)) -> q_taint q = false -> used_le_max q (q_used q).
 Definition step_holds (cfg : config) (wf : bool) (st : state) (o : op) (ob : obs) : Prop :=
-  (forall id, o = OAttempt id -> attempt_holds cfg st id ob)
+  (forall id, o = OAttempt id \/ o = OCheck id -> attempt_holds cfg st id ob)
   /\ (wf = true -> dump_holds (fst (step cfg st o)) ob).
+
+(* ---------- the non-preemptible clause, read strictly ---------- *)
+(* A dimension the quota declares (key of max) but for which min has no entry is guaranteed
+   nothing: min = 0 there — this is how the runtime-quota computation itself reads a missing min.
+   The admission code instead skips such a dimension (quotav1.LessThanOrEqual only looks at the
+   keys of its right operand), so a non-preemptible pod may consume a resource for which its quota
+   has no guarantee at all. *)
+Definition min_or0 (q : quota) (d : dim) : Z :=
+  if mget (q_mindecl q) d then vget (q_min q) d else 0.
+Definition np_strict (q : quota) (mreq : vec) : Prop :=
+  forall d, mget (q_decl q) d = true -> vget (q_npused q) d + vget mreq d <= min_or0 q d.
+Definition np_strictb (q : quota) (mreq : vec) : bool :=
+  all_dims (fun d => negb (mget (q_decl q) d) || (vget (q_npused q) d + vget mreq d <=? min_or0 q d)).
+(* every key of max is a key of min *)
+Definition min_complete (q : quota) : bool :=
+  all_dims (fun d => negb (mget (q_decl q) d) || mget (q_mindecl q) d).
+
+Definition check_np_attempt (st : state) (id : Z) (ob : obs) : Z :=
+  match find_pod id (pods st) with
+  | Some p =>
+    match path st (p_quota p) with
+    | q :: _ =>
+      if (o_status ob =? 0) && p_np p && negb (np_strictb q (vmask (q_decl q) (p_req p)))
+      then 3 else 0
+    | [] => 0
+    end
+  | None => 0
+  end.
+
+Fixpoint check_np (cfg : config) (st : state) (prev : list (Z * (vec * vec)))
+         (ops : list op) (os : list obs) : Z :=
+  match ops, os with
+  | o :: ops', ob :: os' =>
+    let st1 := sync_state st prev in
+    let c := match o with
+             | OAttempt id | OCheck id => check_np_attempt st1 id ob
+             | _ => 0
+             end in
+    if negb (c =? 0) then c
+    else check_np cfg (fst (step cfg st1 o)) (o_dump ob) ops' os'
+  | _, _ => 0
+  end.
+
+(* histories in which every quota object gives a min for every key of its max *)
+Definition mc_opb (st : state) (o : op) : bool :=
+  match o with
+  | OQuotaAdd id parent lend decl mx mindecl mn w =>
+      min_complete (mkQuota id parent lend decl mx mindecl mn w vzero vzero vzero false)
+  | OQuotaUpdate id mx mindecl mn w =>
+      forallb (fun q => negb (q_id q =? id) || min_complete (set_spec q mx mindecl mn w)) (quotas st)
+  | _ => true
+  end.
+Fixpoint mc_hist (cfg : config) (st : state) (ops : list op) : bool :=
+  match ops with
+  | [] => true
+  | o :: t => mc_opb st o && mc_hist cfg (fst (step cfg st o)) t
+  end.
+
+(* the whole property on an observation: clauses 1,2,4,5,7-9 first, then clause 3 *)
+Definition prop_code_full (cfg : config) (ops : list op) (os : list obs) : Z :=
+  let c := prop_code cfg ops os in
+  if negb (c =? 0) then c else check_np cfg init_state [] ops os.
